@@ -238,10 +238,6 @@ func Random(seed int64, idx int, opt RandOpt) *Entry {
 				switch c := r.Intn(10); {
 				case c < 6:
 					fl = g.leafField(false)
-					for fl.StdDur && fl.Kind == ir.KScalar || fl.CastType == "Duration" {
-						// by-value durations as oneof branches live in the isolated case K11(4) (finding D9)
-						fl = g.leafField(false)
-					}
 					if fl.Kind == ir.KTimestamp || fl.Kind == ir.KDuration {
 						fl.Nullable = nil
 					}
